@@ -258,8 +258,24 @@ def gen_db(rng, idx):
         steps = gen_steps(rng)
         words = chunk(rng, letters_of(steps))
         body = layout(rng, ['('] + labels + [')'] + words)
-        src.append(f'{name} $p |- {term_text(rng, svars)} $={body}$.')
-        lemmas.append(dict(name=name, vars=sorted(svars), labels=labels, steps=steps, words=words, body=body))
+        stmt = f'{name} $p |- {term_text(rng, svars)} $={body}$.'
+        # a theorem without $e inside a ${ $d ... $} block: the variables that occur ONLY in the $d (dummy variables of the
+        # proof) are not mandatory (Appendix B: mandatory = $f of the variables of the assertion and of its $e hypotheses).
+        # converter: the first variable of a $d must be an element/set variable, the pair must be two different variables
+        evs = [v for _, v, kd in floats if kd != '#Pattern']
+        blocked = None
+        pvs = [v for _, v, kd in floats if kd == '#Pattern']
+        if evs and pvs and rng.random() < 0.5:
+            dstmts = []
+            for _ in range(rng.randint(1, 2)):
+                # (the converter compares an element and a set variable of a $d by number only, so the second variable
+                # is a #Pattern variable here; both may or may not occur in the assertion)
+                dstmts.append((rng.choice(evs), rng.choice(pvs)))
+            blocked = [v for pr in dstmts for v in pr if v not in svars]
+            stmt = '${ ' + ' '.join(f'$d {a} {b} $.' for a, b in dstmts) + '\n  ' + stmt + ' $}'
+        src.append(stmt)
+        lemmas.append(dict(name=name, vars=sorted(svars), labels=labels, steps=steps, words=words, body=body,
+                           dv_only=sorted(set(blocked)) if blocked is not None else None))
     return dict(src='\n'.join(src) + '\n', floats=[(l, v) for l, v, _ in floats], lemmas=lemmas)
 
 
@@ -484,6 +500,8 @@ def classify_failure(case_kind, floats, svars, tokens, impl):
     if impl[0] != 'OK':
         return 'import_proof:rejects-valid-compressed-proof'
     m = len([1 for (_, v) in floats if v in set(svars)])
+    if len(impl[1]) > len(tbl) and impl[1][len(impl[1]) - (len(tbl) - m):] == tbl[m:] and set(tbl[:m]) < set(impl[1][:len(impl[1]) - (len(tbl) - m)]):
+        return 'split_proof:non-mandatory-variable-numbered-as-mandatory-hypothesis'
     if impl[1][:m] != tbl[:m]:
         return 'split_proof:mandatory-hypotheses-not-in-database-order'
     if impl[1] != tbl:
@@ -684,7 +702,9 @@ def run(tier, seed):
             m = model_outcome(mo[2 * n])
             mfield = dec_s(mo[2 * n + 1])
             nm = len([1 for (_, v) in d['floats'] if v in set(lm['vars'])])
-            R.case(('db', d['src'], lm['name']), True, f'db-lemma:mandatory={nm}')
+            dv = lm.get('dv_only')
+            R.case(('db', d['src'], lm['name']), True, f'db-lemma:mandatory={nm}' +
+                   ('' if dv is None else ':in-$d-block' if not dv else ':in-$d-block-with-dummy-variables'))
             toks = ['('] + lm['labels'] + [')'] + lm['words']
             spec = spec_decode(d['floats'], set(lm['vars']), toks)
             for hs in seeds:
